@@ -35,6 +35,9 @@ func (h *HierarchicalConjunctiveThreshold) UnmarshalCBOR(data []byte) error {
 	if err != nil {
 		return errs.Wrap(err).WithMessage("failed to unmarshal HierarchicalConjunctiveThreshold")
 	}
+	if dto == nil {
+		return errs.Wrap(serde.ErrNull).WithMessage("failed to unmarshal HierarchicalConjunctiveThreshold")
+	}
 	hh, err := NewHierarchicalConjunctiveThresholdAccessStructure(dto.Levels...)
 	if err != nil {
 		return errs.Wrap(err).WithMessage("invalid data for HierarchicalConjunctiveThreshold")
